@@ -100,15 +100,24 @@ Fixpoint fov (v : value) : bool :=
 
 Lemma fov_fields name fs : fov (VTup name fs) = true -> forall f, In f fs -> fov (snd f) = true.
 Proof.
-  cbn. induction fs as [|[l x] fs IH]; intros H f Hin; [destruct Hin|].
+  induction fs as [|[l x] fs IH]; intros H f Hin; [destruct Hin|]. cbn in H.
   apply andb_true_iff in H. destruct H as [Hx Hr]. destruct Hin as [<-|Hin]; [exact Hx|apply IH; assumption].
+Qed.
+
+Lemma Forall2_field_ok_vals (R1 R2 : value -> nat -> Prop) fs vs :
+  (forall (f : option nat * nat) (fv : option nat * value), In fv vs -> R1 (snd fv) (snd f) -> R2 (snd fv) (snd f)) ->
+  Forall2 (field_ok R1) fs vs -> Forall2 (field_ok R2) fs vs.
+Proof.
+  intros Himp HF. induction HF as [|f fv fs' vs' [Hl Hr] HF IH]; constructor.
+  - split; [exact Hl|]. apply Himp; [left; reflexivity|exact Hr].
+  - apply IH. intros f0 fv0 Hin. apply Himp. right; exact Hin.
 Qed.
 
 (* the meaning of an id is preserved by every extension of the registry (first-order values) *)
 Theorem inhab_extends P P' : extends P P' ->
   forall n E v t, fov v = true -> inhab P n E v t -> inhab P' n E v t.
 Proof.
-  intros [HT HU]. induction n as [|m IH]; intros E v t Hfo H; [exact H|]. cbn [inhab] in *.
+  intros [HT HU] n. induction n as [|m IH]; intros E v t Hfo H; [exact H|]. cbn [inhab] in *.
   induction H.
   - apply Inh_int; auto.
   - apply Inh_bin; auto.
@@ -119,9 +128,8 @@ Proof.
   - eapply Inh_dangling; [apply HT; eassumption|assumption].
   - eapply Inh_tuple; [apply HT; eassumption|apply HU; eassumption|].
     pose proof (fov_fields _ _ Hfo) as Hf.
-    match goal with HF : Forall2 _ _ fs |- _ => induction HF as [|a bv l1 l2 [Hl Hr] HF IHF] end; constructor.
-    + split; [exact Hl|]. apply IH; [apply (Hf bv); left; reflexivity|exact Hr].
-    + apply IHF. intros f0 Hin. apply Hf. right; exact Hin.
+    eapply Forall2_field_ok_vals; [|eassumption].
+    intros f0 fv Hin Hr. apply IH; [apply Hf; exact Hin|exact Hr].
   - eapply Inh_partial; [apply HT; eassumption|assumption|].
     intros l ft Hin. match goal with Hall : forall l ft, In (l, ft) _ -> _ |- _ => destruct (Hall l ft Hin) as [fv [Hfv Hr]] end.
     exists fv. split; [exact Hfv|]. apply IH; [apply (fov_fields _ _ Hfo (Some l, fv)); exact Hfv|exact Hr].
